@@ -979,6 +979,26 @@ func (h *hist) step(line string) (out string) {
 		}
 		return "ok"
 	}
+	if op == "uireduce" {
+		ps := strings.SplitN(a0, ":", 2)
+		j, _ := strconv.Atoi(ps[0])
+		if h.ur[j] == nil || len(ps) < 2 {
+			return "bad-op"
+		}
+		var gens []*univariate.Polynomial
+		for _, g := range strings.Split(ps[1], ";") {
+			gens = append(gens, h.decU(h.ur[j], g))
+		}
+		id, err := h.ur[j].NewIdeal(gens...)
+		if err != nil {
+			return "err-ideal " + kindOf(err)
+		}
+		f := h.us[regNum(a1)]
+		if err := id.Reduce(f); err != nil {
+			return "err " + kindOf(err)
+		}
+		return "ok " + h.showU(f)
+	}
 	if op == "ireduce" {
 		id, f := h.is[regNum(a0)], h.bs[regNum(a1)]
 		if err := id.Reduce(f); err != nil {
